@@ -224,3 +224,8 @@ BOUNDS = {
 OUTSIDE = ["4 tasks with more than one call each; 3 calls each for 3+ tasks", "full C10 equivalence at quiescence is replaced by a hit/miss/identity probe of every key"]
 NONTRIVIAL_RULE = ">=1 context switch and >=2 completed calls in the schedule"
 ASSUMPTIONS = ["scheduler as in C09; statistics are sampled after every scheduler step (between any two suspension points of any task)"]
+
+MANIFEST = {
+    "text": 'Bounded model checking of overlapping cached calls: all interleavings of 2..3 tasks, invariants (currsize<=maxsize, hits+misses=calls, misses=invocations, value produced for an equal pattern) after every scheduler step, clear/discard in flight, cancellation, sequential probe at quiescence. Nothing is claimed outside the bounds listed in the evidence file.',
+    "note": 'Trusted: CrossHair 0.0.110 (with short-circuiting off and a refined callable() model), z3 5.1.0, the harness oracles. Scheduler as in C09.',
+}
